@@ -305,19 +305,19 @@ and map carriers whose key type's order is modelled (`keyModelled`: integers, `b
 canonical content — strictly ascending keys, which is what a `BTreeSet` / `BTreeMap` value is; no `Some(None)`, no null / *empty* vector element — C01-F2 / C01-F9): the carrier's own serializer appends exactly
 the cell the protocol defines for its embedding, and the carrier's own typed deserializer, reading that cell
 (followed by anything), returns `x` itself — `Vec<Option<T>>` with nulls in lists and maps included. -/
-theorem typed_roundtrip (u : Bytes → Bool) (c : Carrier) (t : CqlTy) (x : RustVal) (cell rest buf : Bytes)
+theorem typed_roundtrip (u : Bytes → Bool) (fl : Flavour) (c : Carrier) (t : CqlTy) (x : RustVal) (cell rest buf : Bytes)
     (hwt : wtVal c x = true) (hc : compat c t = true) (htc : tcheck c t = true) (hrt : rtOk u c t x = true)
     (hs : encSpec t (embed c x) true = .ok cell) :
     serCarrier c t x true buf = .ok (buf ++ cell) ∧
-    ∃ o, readCqlBytes (cell ++ rest) = .ok (o, rest) ∧ deserCarrier u c t o = .ok x :=
+    ∃ o, readCqlBytes (cell ++ rest) = .ok (o, rest) ∧ deserCarrier u fl c t o = .ok x :=
   ⟨carrier_factor_spec c t x true buf cell hwt hc hs,
-   TypedRT.item_of_trt u c t x (TypedRT.trt u c t x hwt htc hrt) cell hs rest⟩
+   TypedRT.item_of_trt u fl c t x (TypedRT.trt u fl c t x hwt htc hrt) cell hs rest⟩
 
 /-- The same as one call: `type_check`, split the cell, `deserialize`. -/
-theorem typed_read_roundtrip (u : Bytes → Bool) (c : Carrier) (t : CqlTy) (x : RustVal) (cell : Bytes)
+theorem typed_read_roundtrip (u : Bytes → Bool) (fl : Flavour) (c : Carrier) (t : CqlTy) (x : RustVal) (cell : Bytes)
     (hwt : wtVal c x = true) (htc : tcheck c t = true) (hrt : rtOk u c t x = true)
-    (hs : encSpec t (embed c x) true = .ok cell) : typedRead u c t cell = some (.ok x) := by
-  obtain ⟨o, hr, hd⟩ := TypedRT.item_of_trt u c t x (TypedRT.trt u c t x hwt htc hrt) cell hs []
+    (hs : encSpec t (embed c x) true = .ok cell) : typedRead u fl c t cell = some (.ok x) := by
+  obtain ⟨o, hr, hd⟩ := TypedRT.item_of_trt u fl c t x (TypedRT.trt u fl c t x hwt htc hrt) cell hs []
   rw [List.append_nil] at hr
   simp only [typedRead, htc, if_true, hr, hd]
 
@@ -328,17 +328,32 @@ example :
     let t : CqlTy := .tuple [.native .int, .list (.map (.native .text) (.native .double))]
     let x : RustVal := .tuple [.none, .seq [.pairs [(.string [], .none), (.string [0x61], .some (.f64 0x3ff0000000000000))]]]
     wtVal c x = true ∧ compat c t = true ∧ tcheck c t = true ∧ rtOk (fun _ => true) c t x = true ∧
-    (∃ cell, encSpec t (embed c x) true = .ok cell ∧ typedRead (fun _ => true) c t cell = some (.ok x)) := by
+    (∃ cell, encSpec t (embed c x) true = .ok cell ∧ typedRead (fun _ => true) .btree c t cell = some (.ok x)) := by
   refine ⟨by rfl, by rfl, by rfl, by rfl, _, rfl, by rfl⟩
+
+/-- **Which of two `Ord`-equal keys a collection keeps.**  `BTreeSet::from_iter` / `BTreeMap::from_iter` (stable
+sort + `DedupSortedIter`) keep the LAST of equal keys — key and value; `HashSet` keeps the FIRST key, `HashMap`
+the first key with the last value.  (Equal keys that are not identical exist: `CqlTimeuuid`'s order ignores the
+version nibble.) -/
+theorem collect_equal_keys (x y v w : RustVal) (h : rvCmp x y = .eq) :
+    collectSet .btree [x, y] = [y] ∧ collectSet .hash [x, y] = [x] ∧
+    collectMap .btree [(x, v), (y, w)] = [(y, w)] ∧ collectMap .hash [(x, v), (y, w)] = [(x, w)] := by
+  simp [collectSet, collectMap, insertSet, insertMap, h]
+
+set_option maxRecDepth 100000 in
+example : rvCmp (.timeuuid 0x00000000000010008000000000000000) (.timeuuid 0x00000000000040008000000000000000) = .eq ∧
+    collectSet .btree [.timeuuid 0x00000000000010008000000000000000, .timeuuid 0x00000000000040008000000000000000] =
+      [.timeuuid 0x00000000000040008000000000000000] := by
+  refine ⟨by rfl, by rfl⟩
 
 set_option maxRecDepth 100000 in
 /-- The set / map carriers `collect()`: a non-canonical body (unsorted, duplicates) reads as the sorted,
 duplicate-free set, and a duplicated map key keeps its *last* value. -/
 example :
-    deserCarrier (fun _ => true) (.set .i32) (.set (.native .int))
+    deserCarrier (fun _ => true) .btree (.set .i32) (.set (.native .int))
       (some [0, 0, 0, 3, 0, 0, 0, 4, 0, 0, 0, 5, 0, 0, 0, 4, 0, 0, 0, 1, 0, 0, 0, 4, 0, 0, 0, 5]) =
       .ok (.seq [.i32 1, .i32 5]) ∧
-    deserCarrier (fun _ => true) (.map .i32 .i32) (.map (.native .int) (.native .int))
+    deserCarrier (fun _ => true) .btree (.map .i32 .i32) (.map (.native .int) (.native .int))
       (some [0, 0, 0, 2, 0, 0, 0, 4, 0, 0, 0, 1, 0, 0, 0, 4, 0, 0, 0, 7, 0, 0, 0, 4, 0, 0, 0, 1, 0, 0, 0, 4, 0, 0, 0, 9]) =
       .ok (.pairs [(.i32 1, .i32 9)]) ∧
     rtOk (fun _ => true) (.set .i32) (.set (.native .int)) (.seq [.i32 5, .i32 1, .i32 5]) = false := by
@@ -347,9 +362,9 @@ example :
 /-- Typed decoders have no "zero bytes ⇒ empty" rule: `i32` on the zero-length cell is `ByteLengthMismatch`,
 `MaybeEmpty<i32>` reads `Empty`, `Option<i32>` on a null cell reads `None`, a short tuple does not type-check. -/
 example :
-    deserCarrier (fun _ => true) .i32 (.native .int) (some []) = .error .byteLengthMismatch ∧
-    deserCarrier (fun _ => true) (.maybeEmpty .i32) (.native .int) (some []) = .ok .empty ∧
-    deserCarrier (fun _ => true) (.opt .i32) (.native .int) none = .ok .none ∧
+    deserCarrier (fun _ => true) .btree .i32 (.native .int) (some []) = .error .byteLengthMismatch ∧
+    deserCarrier (fun _ => true) .btree (.maybeEmpty .i32) (.native .int) (some []) = .ok .empty ∧
+    deserCarrier (fun _ => true) .btree (.opt .i32) (.native .int) none = .ok .none ∧
     tcheck (.tuple [.i32]) (.tuple [.native .int, .native .int]) = false := by
   refine ⟨by rfl, by rfl, by rfl, by rfl⟩
 
@@ -457,13 +472,12 @@ theorem chrono_time_roundtrip (secs frac : Int) (s0 : 0 ≤ secs) (s1 : secs < 8
 
 open ScyllaVerif.ExternalConv in
 /-- `chrono::DateTime<Utc>` ↔ `CqlTimestamp` (millisecond precision, `TryInto` path): inverse on chrono's whole
-range, `ValueOverflow` outside it; `BigDecimal`'s `i64` exponent is accepted exactly when it fits `i32`. -/
+range, `ValueOverflow` outside it. -/
 theorem chrono_dt_roundtrip (secs millis : Int) (m0 : 0 ≤ millis) (m1 : millis < 1000)
     (h0 : chronoDtMinMs ≤ secs * 1000 + millis) (h1 : secs * 1000 + millis ≤ chronoDtMaxMs) :
     cqlToChronoDt (chronoDtToCql secs millis) = some (secs, millis) ∧
-    (∀ ms : Int, ms < chronoDtMinMs ∨ chronoDtMaxMs < ms → cqlToChronoDt ms = none) ∧
-    (∀ s : Int, (bigDecimalScale s).isSome ↔ (-(2 ^ 31) ≤ s ∧ s < 2 ^ 31)) := by
-  refine ⟨?_, ?_, ?_⟩
+    (∀ ms : Int, ms < chronoDtMinMs ∨ chronoDtMaxMs < ms → cqlToChronoDt ms = none) := by
+  refine ⟨?_, ?_⟩
   · unfold cqlToChronoDt chronoDtToCql
     have e1 : (secs * 1000 + millis) / 1000 = secs := by omega
     have e2 : (secs * 1000 + millis) % 1000 = millis := by omega
@@ -473,9 +487,12 @@ theorem chrono_dt_roundtrip (secs millis : Int) (m0 : 0 ≤ millis) (m1 : millis
     unfold cqlToChronoDt
     have : ¬ (chronoDtMinMs ≤ ms ∧ ms ≤ chronoDtMaxMs) := by omega
     simp [this]
-  · intro s
-    unfold bigDecimalScale
-    split <;> simp_all
+
+open ScyllaVerif.ExternalConv in
+/-- `BigDecimal`'s `i64` exponent is accepted exactly when it fits the protocol's `i32` scale. -/
+theorem bigdecimal_scale (s : Int) : (bigDecimalScale s).isSome ↔ (-(2 ^ 31) ≤ s ∧ s < 2 ^ 31) := by
+  unfold bigDecimalScale
+  split <;> simp_all
 
 open ScyllaVerif.ExternalConv in
 /-- The external carriers' OWN decoders (`deserialize/value.rs:606-756`) invert the encoders on the external
